@@ -5,7 +5,7 @@
 export GOFLAGS=-mod=mod GOPROXY=off GOSUMDB=off GOTOOLCHAIN=local
 export VERIF_DIR=/verif VERIF_HARNESS_DIR=/verif/harness
 ids="$@"; [ -z "$ids" ] && ids=$(ls /verif/seeded)
-wt=/tmp/regr-wt; out=/tmp/regr-out
+wt=/tmp/regr-wt-$$; out=/tmp/regr-out-$$
 git -C /repo worktree prune; rm -rf $wt $out; mkdir -p $out
 git -C /repo worktree add -q --detach $wt HEAD || exit 2
 for id in $ids; do
